@@ -13,7 +13,13 @@ use candid::types::internal::TypeContainer;
 use candid::types::Type;
 use candid::{CandidType, Decode, Deserialize, Encode, Int, Nat, Principal, Reserved};
 use std::any::Any;
-use std::collections::{BTreeMap, BTreeSet, BinaryHeap, HashMap, HashSet, LinkedList, VecDeque};
+use std::collections::{BTreeMap, BTreeSet, BinaryHeap, LinkedList, VecDeque};
+/// std's hash containers with a fixed-key hasher: with the default `RandomState` the iteration
+/// order — and with it the bytes of an encoded message — differs from process to process, which
+/// breaks replay (found by the full determinism self-test: 4 of ~25 000 C06 runs).
+pub type DetState = std::hash::BuildHasherDefault<std::collections::hash_map::DefaultHasher>;
+pub type HashMap<K, V> = std::collections::HashMap<K, V, DetState>;
+pub type HashSet<T> = std::collections::HashSet<T, DetState>;
 
 pub mod derived;
 
